@@ -7,13 +7,14 @@ namespace WD.Hand
 def grow (l : List St) : List St :=
   (l ++ l.flatMap (fun s => [step s true, step s false])).eraseDups
 
-def reach : List St := (List.range 12).foldl (fun l _ => grow l) [({} : St)]
+def reach : List St := (List.range 24).foldl (fun l _ => grow l) [init false, init true]
 
-theorem reach_init : ({} : St) ∈ reach := by decide +kernel
+theorem reach_init : ∀ b : Bool, init b ∈ reach := by decide +kernel
 
 theorem reach_closed : ∀ s ∈ reach, ∀ b : Bool, step s b ∈ reach := by decide +kernel
 
-theorem reach_good : ∀ s ∈ reach, s.sp = .done → s.tp = .done → (s.created = true → s.closed = true) ∧ s.field = false := by
+theorem reach_good : ∀ s ∈ reach, s.sp = .done → s.tp = .done →
+    (s.created = true → s.closed = true) ∧ s.field = false ∧ s.lost = false := by
   decide +kernel
 
 theorem run_reach (sched : List Bool) : ∀ s ∈ reach, run s sched ∈ reach := by
@@ -21,14 +22,26 @@ theorem run_reach (sched : List Bool) : ∀ s ∈ reach, run s sched ∈ reach :
   | nil => intro s h; exact h
   | cons b rest ih => intro s h; exact ih _ (reach_closed s h b)
 
-/-- **hand-over**: for every interleaving of the starter and the stopper, when both have finished the buffer that was
-    created has been closed and the emitter no longer refers to it -/
-theorem handover (sched : List Bool) (h1 : (run {} sched).sp = .done) (h2 : (run {} sched).tp = .done) :
-    ((run {} sched).created = true → (run {} sched).closed = true) ∧ (run {} sched).field = false :=
-  reach_good _ (run_reach sched _ reach_init) h1 h2
+/-- **hand-over**: for every interleaving of the starter (which calls `start()` once or twice) and the stopper, when
+    both have finished the buffer that was created has been closed, the emitter no longer refers to it, and no
+    reference to a buffer was ever overwritten by a second one -/
+theorem handover (again : Bool) (sched : List Bool) (h1 : (run (init again) sched).sp = .done)
+    (h2 : (run (init again) sched).tp = .done) :
+    ((run (init again) sched).created = true → (run (init again) sched).closed = true) ∧
+      (run (init again) sched).field = false ∧ (run (init again) sched).lost = false :=
+  reach_good _ (run_reach sched _ (reach_init again)) h1 h2
+
+/-- premises satisfiable: a double start() overtaken by the stopper in the middle -/
+example : let s := run (init true) [true, true, true, true, true, false, false, false, false, true, true]
+    s.sp = .done ∧ s.tp = .done ∧ s.created = true ∧ s.closed = true := by decide
+
+/-- the defect that was repaired (D20): without the look at `ident`, a second start() overwrites the reference to
+    the buffer the running thread reads, and stop() then closes the wrong one -/
+def d20_final : St := List.foldl stepNoGuard (init true) (List.replicate 10 true ++ List.replicate 4 false)
+example : d20_final.sp = .done ∧ d20_final.tp = .done ∧ d20_final.lost = true := by decide
 
 /-- the defect that was repaired (D19): before, the stopper first, then the starter, left the buffer open -/
-example : let s := [false, false, true, true].foldl stepOld ({} : St)
+example : let s := [false, false, true, true, true].foldl stepOld ({} : St)
     s.sp = .done ∧ s.tp = .done ∧ s.created = true ∧ s.closed = false := by decide
 
 end WD.Hand
